@@ -15,6 +15,7 @@ from __future__ import annotations
 import json
 import os
 import random
+import re
 from pathlib import Path
 
 from harness.common import VERIF, Ctx, cbool, clist, cn, cz, parallel_workers
@@ -62,6 +63,18 @@ def reaches(chains, start, target):
         seen.add(x)
         todo.extend(chains.get(x, ()))
     return False
+
+
+def dist(chains, start, target):
+    """number of chain links on the shortest way from start to target (0 = same)"""
+    frontier, seen, n = {start}, {start}, 0
+    while frontier:
+        if target in frontier:
+            return n
+        frontier = {c for x in frontier for c in chains.get(x, ())} - seen
+        seen |= frontier
+        n += 1
+    return 99
 
 
 def graph_cyclic(chains):
@@ -182,8 +195,10 @@ class Gen:
                 # prefer chains that do not lead back to p (valid nesting), sometimes ancestors (cycle)
                 safe = [c for c in pool_chain if not reaches(self.chains, c, p)]
                 anc = [c for c in pool_chain if reaches(self.chains, c, p)]
-                if anc and r.random() < 0.25:
-                    out.append(r.choice(anc))
+                if anc and r.random() < 0.35:
+                    # cycle attempt; prefer ancestors that are several levels above p
+                    far = [c for c in anc if p not in self.chains.get(c, ())]
+                    out.append(r.choice(far if far and r.random() < 0.7 else anc))
                 elif safe:
                     out.append(r.choice(safe))
                 else:
@@ -202,6 +217,15 @@ class Gen:
 
     def gen_edit(self):
         r = self.r
+        if r.random() < 0.09:
+            # aimed cycle attempt through several levels: the new child is an ancestor 2..4 links above the parent
+            cands = [(p, a) for p in self.chains for a in self.chains if a != p and 2 <= dist(self.chains, a, p) <= 4]
+            if cands:
+                p, a = r.choice(cands)
+                plain = [c for c in self.colls if c not in self.chains]
+                cs = [a] + ([r.choice(plain)] if plain and r.random() < 0.5 else [])
+                r.shuffle(cs)
+                return ["edit", r.choice(["redefine", "prepend", "extend"]), p, cs, "butler"]
         x = r.random()
         if x < 0.88 and self.chains:
             p = r.choice(list(self.chains))
@@ -353,9 +377,21 @@ class Oracle:
         self.ctx, self.case, self.res, self.tag = ctx, case, res, tag
 
     def fail(self, sig, i, what, **extra):
+        if getattr(self.ctx, "collect_only", False):
+            self.ctx.sigs.append((sig, i))
+            return
         rep = {"case": {"ops": self.case["ops"][: i + 1], "probes": self.case["probes"][: i + 1]}, "failing_step": i,
                "op": self.case["ops"][i], "origin": self.tag, "impl_steps": self.res["steps"][max(0, i - 1): i + 1]}
         rep.update(extra)
+        known = any(k.get("status", "known") == "known" and re.fullmatch(k["signature"], sig) for k in self.ctx.known)
+        if not known and self.tag != "replay" and sig not in SHRUNK and len(SHRUNK) < 3:
+            SHRUNK[sig] = shrink(self.case, i, sig)
+            if SHRUNK[sig] is not None:
+                rep["original_case"] = rep["case"]
+                rep["case"] = SHRUNK[sig]
+                rep["failing_step"] = len(SHRUNK[sig]["ops"]) - 1
+                rep["note"] = ("`case` is the minimised history (greedy removal of operations and probes, each candidate re-run on "
+                               "the implementation); it fails with the same signature at its last step")
         self.ctx.oracle_fail(sig, rep, what)
 
     def run(self):
@@ -403,8 +439,8 @@ class Oracle:
                 else:
                     ctx.hist("refusal", "+".join(sorted(reasons)))
                     if "Cycle" in reasons:
-                        lv = "self" if p in cs else ("direct" if any(p in chains.get(c, ()) for c in cs) else "deep")
-                        ctx.hist("cycle_attempt", lv)
+                        lv = min(dist(chains, c, p) for c in cs if c in colls and reaches(chains, c, p))
+                        ctx.hist("cycle_attempt_levels", lv)
                     ctx.nontrivial({"k": kind, "p": p, "cs": cs, "chains": chains})
                     if out == "ok":
                         self.fail(f"edit-accepted-invalid:{kind}:{'+'.join(sorted(reasons))}", i,
@@ -494,6 +530,73 @@ class Oracle:
 
 
 # ---------------------------------------------------------------------------------------------
+# shrinking: greedy removal of operations, re-running the implementation and the oracle each time
+# ---------------------------------------------------------------------------------------------
+
+SHRUNK: dict = {}
+
+
+class _Collect:
+    """stand-in for Ctx that only collects oracle signatures"""
+    collect_only = True
+
+    def __init__(self):
+        self.sigs = []
+        self.known_printed = set()
+        self.oracle_failures = []
+
+    def count(self, n=1):
+        pass
+
+    def hist(self, *a, **k):
+        pass
+
+    def nontrivial(self, *a):
+        pass
+
+    def tie_broken(self, *a):
+        pass
+
+
+def _fails_with(case, sig):
+    from harness.common import run_worker
+    status, r = run_worker("c03_impl", "run_cases", {"cases": [case], "step_timeout": 30}, timeout=400)
+    if status != "ok":
+        return sig.startswith("hang") and status == "hang"
+    col = _Collect()
+    Oracle(col, case, r[0], "shrink").run()
+    last = len(case["ops"]) - 1
+    return any(s == sig and (i == last or s.startswith("hang") or s.startswith("cycle")) for s, i in col.sigs)
+
+
+def shrink(case, i, sig, budget=36):
+    ops = list(case["ops"][: i + 1])
+    probes = [[] for _ in ops]
+    probes[-1] = case["probes"][i]
+    cand = {"ops": ops, "probes": probes}
+    try:
+        if not _fails_with(cand, sig):
+            return None
+        budget -= 1
+        j = len(ops) - 2
+        while j >= 0 and budget > 0:
+            trial = {"ops": cand["ops"][:j] + cand["ops"][j + 1:], "probes": cand["probes"][:j] + cand["probes"][j + 1:]}
+            budget -= 1
+            if _fails_with(trial, sig):
+                cand = trial
+            j -= 1
+        # keep only the probes that matter when the failure is a probe failure: try dropping probes one by one
+        k = len(cand["probes"][-1]) - 1
+        while k >= 0 and budget > 0 and len(cand["probes"][-1]) > 1:
+            trial = {"ops": cand["ops"], "probes": cand["probes"][:-1] + [cand["probes"][-1][:k] + cand["probes"][-1][k + 1:]]}
+            budget -= 1
+            if _fails_with(trial, sig):
+                cand = trial
+            k -= 1
+        return cand
+    except Exception:  # noqa: BLE001 - shrinking is best effort
+        return None
+
 
 HDR = ("From Coq Require Import ZArith NArith List Bool.\nFrom V Require Import Model.Chain Model.ChainCheck.\n"
        "Import ListNotations.\n")
@@ -569,7 +672,7 @@ def run(ctx: Ctx):
         return
 
     corpus = load_corpus()
-    ncases = int(os.environ.get("VERIF_C03_CASES", "0") or 0) or (96 if ctx.quick else 1400)
+    ncases = int(os.environ.get("VERIF_C03_CASES", "0") or 0) or (96 if ctx.quick else 1200)
     cases = list(corpus)
     for i in range(ncases):
         g = Gen(random.Random(ctx.rng.getrandbits(64)), ctx.rng.randint(14, 30))
